@@ -47,12 +47,21 @@ def _no_module_state():
     return [o for o in write_sites() if 'module-level state' in o['detail'] or o['oid'] == 'frame.write.sites_enumerated']
 
 
+def _matcher_is_private():
+    from contracts.frames import publication
+    return [o for o in publication() if o['oid'] in ('frame.publish.matcher_per_parse', 'frame.publish.cook_is_one_locked_region',
+                                                       'frame.publish.parse_inside_lock')]
+
+
 PROP = Prop(
     'C01',
     contracts=[REGISTRY[RC + '.search#M'], REGISTRY[PA + '#C01'], REGISTRY[PB + '#C01'], REGISTRY[PC + '#C01'], REGISTRY[SK + '#C01'],
                REGISTRY['DocumentTemplate.DT_String.String.cook#C01']],
-    claims=['*::C01.*', '*::loop*', 'C01.render.*', 'frame.write.*', '*::ensures.range', '*::call.*', '*::C07.entity_is_a_var_tag'],
-    structural=[_render_literals, _no_module_state],
+    claims=['*::C01.*', '*::loop*', 'C01.render.*', 'frame.write.*', '*::ensures.range', '*::call.*', '*::C07.entity_is_a_var_tag',
+            'frame.publish.matcher_per_parse', 'frame.publish.cook_is_one_locked_region', 'frame.publish.parse_inside_lock'],
+    # the contract of parse() is proved against a matcher whose match state belongs to this parse: the matcher object is created
+    # per parse and compilation runs as one locked region (the two structural facts the proof of parse() rests on)
+    structural=[_render_literals, _no_module_state, _matcher_is_private],
     native_default=native_c01.native_for,
     bounded=[_bounded],
     assumptions=['the compiler is verified against the contract M of a tag matcher (a match lies at or after the search position, inside the '
